@@ -3,8 +3,12 @@
   Property theorems only (helper lemmas in Lemmas/Handshake.lean)
   The handshake model (`Handshake.lean`) is a total function of the adversarial link script: its
   structural recursion over the generated retry counters IS the termination proof; the theorems
-  add the explicit time bound (virtual time, tenths of a second), the clean-up after failure, and
-  the no-spin property of the receive-thread body (`Reasm.readFrame`).
+  add the explicit time bound (virtual time, tenths of a second), the clean-up after failure, the
+  no-spin property of the receive-thread body (`Reasm.readFrame`), the bound on what the receive
+  thread still does once its stop flag is set (`stop_seen_within`), and the same for whole
+  sessions: any sequence of connect / stream start / stream stop / disconnect calls on one
+  `CommHandler` or `NxscopeHandler` with a fault at ANY awaited request, before or after the
+  connect completed (`session_bounded`, `hl_disconnect_bounded`, `disconnect_leaves_nothing`, …).
 -/
 import NxsModel.Handshake
 import NxsModel.Reasm
@@ -29,13 +33,17 @@ theorem disconnect_bounded (dev : DevDesc) (script : List Resp) (dflt : Resp) :
   disconnect_time_le _
 
 /-- afterwards no library thread is left running and the interface is stopped — whether connect
-    succeeded or raised -/
+    succeeded or raised.  (For the raised case this restates the generated Boolean
+    `Gen.Comm.startCleansUp` — the translator's reading of the `except Exception:` clean-up in
+    `_start` — through the model's two flags; the content is in the translator site and in the
+    correspondence run, which compares the thread and interface state of the real handler.) -/
 theorem no_thread_after (dev : DevDesc) (script : List Resp) (dflt : Resp) :
     (disconnectAfter (connect dev script dflt)).recvThreadRunning = false ∧
     (disconnectAfter (connect dev script dflt)).intfRunning = false :=
   disconnect_flags _ (connect_raised_flags dev script dflt)
 
-/-- a connect that raises has already stopped its receive thread and the interface -/
+/-- a connect that raises has already stopped its receive thread and the interface (again a
+    restatement of the generated `Gen.Comm.startCleansUp`, see `no_thread_after`) -/
 theorem failed_connect_cleans_up (dev : DevDesc) (script : List Resp) (dflt : Resp) (e : Err)
     (h : (connect dev script dflt).outcome = .raised e) :
     (connect dev script dflt).recvThreadRunning = false ∧ (connect dev script dflt).intfRunning = false :=
@@ -144,6 +152,205 @@ example :
     let rs : List Bytes := [[1], [2], [3], [0x55], [0], [0], [0xff], [9], [9], [9]]
     Reasm.readFrame Serial.codec (Reasm.fuelFor [] rs) [] rs = (none, [0, 0, 0xff], [[9], [9], [9]]) ∧
     Reasm.declaredLen (Reasm.readHdr Serial.codec (Reasm.fuelFor [] rs) [] rs) = 0 := by
+  decide +kernel
+
+
+/-! ### the receive thread sees a stop request after at most one more body invocation
+
+`ThreadCommon.thread_stop()` sets the stop flag and joins the thread.  The receive thread runs the
+generated `_thread_loop` program around the body; the flag is tested between two invocations of
+the body.  Whatever instruction the thread is at when the flag is set (`pc` arbitrary: also
+"just tested the flag, found it clear, about to call the body"), it returns after at most
+`loopProg.length` of its own instructions and at most ONE more invocation of the body, and that
+invocation makes at most `2·hdr_len − 1 + (F − hdr_len)` reads.  A stop request that arrives in the
+MIDDLE of an invocation is covered a fortiori: the bound counts all reads of that invocation from its
+beginning.  Each `intf.read()` returns within the interface's read timeout (the ICommInterface
+contract; assumed, not modelled), so `thread_stop()` returns within `(2·hdr_len − 1 + 65531) ×
+read timeout` for the serial codec, sustained noise or not. -/
+
+/-- with the stop flag set the receive thread exits after at most one more invocation of its body,
+    i.e. after at most `(hdr_len − |_prev_read|) + (hdr_len − 1) + (F − hdr_len)` more reads -/
+theorem stop_seen_within (c : Codec) (hc : LawfulCodec c) (fuel pc : Nat) (buf : Bytes) (rs : List Bytes) :
+    (RecvThread.run c fuel true Worker.loopProg.length (RecvThread.at_ pc buf rs)).exited = true ∧
+    (RecvThread.run c fuel true Worker.loopProg.length (RecvThread.at_ pc buf rs)).calls ≤ 1 ∧
+    ∃ k, (RecvThread.run c fuel true Worker.loopProg.length (RecvThread.at_ pc buf rs)).rs = rs.drop k ∧
+      k ≤ (c.hdrLen - buf.length) + (c.hdrLen - 1) +
+        (Reasm.declaredLen (Reasm.readHdr c fuel buf rs) - c.hdrLen) :=
+  RecvThread.run_stop_from c hc fuel pc buf rs
+
+/-- serial codec: at most `2·4 − 1 + 65531` reads after the stop request, whatever the link delivers -/
+theorem serial_stop_seen_within (fuel pc : Nat) (buf : Bytes) (rs : List Bytes) :
+    (RecvThread.run Serial.codec fuel true Worker.loopProg.length (RecvThread.at_ pc buf rs)).exited = true ∧
+    ∃ k, (RecvThread.run Serial.codec fuel true Worker.loopProg.length (RecvThread.at_ pc buf rs)).rs = rs.drop k ∧
+      k ≤ 7 + 65531 := by
+  obtain ⟨h1, _, k, h2, h3⟩ := stop_seen_within Serial.codec Serial.codec_lawful fuel pc buf rs
+  refine ⟨h1, k, h2, ?_⟩
+  have hF := Reasm.serial_declaredLen_lt fuel buf rs
+  have hl : Serial.codec.hdrLen = 4 := rfl
+  rw [hl] at h3
+  omega
+
+/-- not vacuous, and the thread is not one that had stopped working anyway: with the flag clear it
+    invokes the body and is back at the flag test; under a noise source of start bytes, one per read,
+    a stop request lets it consume 4 of the 12 reads and return (before the F20 repair: all 12) -/
+example :
+    let rs : List Bytes := List.replicate 12 [0x55]
+    let t := RecvThread.run Serial.codec (Reasm.fuelFor [] rs) true Worker.loopProg.length (RecvThread.at_ 3 [] rs)
+    t.exited = true ∧ t.calls = 1 ∧ t.rs = List.replicate 8 [0x55] ∧
+    (RecvThread.run Serial.codec (Reasm.fuelFor [] rs) false 2 (RecvThread.at_ 2 [] rs)).exited = false := by
+  decide +kernel
+
+/-! ### sessions: faults after a successful connect, both handler levels -/
+
+/-- `NxscopeHandler.disconnect()` (stream stop + disable-all written now + `CommHandler.disconnect()`) returns within
+    the explicit bound from ANY state of the session, whatever the link answers to its up to three requests and
+    however long (`w`) the stream thread's current poll still lasts -/
+theorem hl_disconnect_bounded (x : Sess) (w : Nat) :
+    (hlDisconnect x w).2.st.time ≤ x.st.time + hlDisconnectBound :=
+  hlDisconnect_time_le x w
+
+/-- the bound with the current timeouts: stop ACK 1 s + stream-thread poll 1 s + divider ACK 1 s + enable ACK 1 s +
+    drain 0.8 s -/
+theorem hl_disconnect_bound_eq : hlDisconnectBound = 48 := hlDisconnectBound_eq
+
+/-- … and it leaves nothing behind: either it returned with receive thread, stream thread and interface stopped, or
+    an ACK wait raised `struct.error` (an ACK frame of the wrong size — outside the property's fault classes;
+    `hl_disconnect_returns` says that this is the only way) -/
+theorem hl_disconnect_cleans_up (x : Sess) (w : Nat) (h : WF .high x) :
+    ((hlDisconnect x w).1 = none ∧ (hlDisconnect x w).2.threads = 0 ∧ (hlDisconnect x w).2.intf = false ∧
+        (hlDisconnect x w).2.connected = false) ∨
+    (hlDisconnect x w).1 = some .structError := by
+  rcases (hlDisconnect_ctl x w h).2 with ⟨h0, _, h2, h3, h4, h5, _⟩ | ⟨h0, _⟩
+  · exact Or.inl ⟨h0, by simp [Sess.threads, h2, h5], h3, h4⟩
+  · exact Or.inr h0
+
+/-- within the fault classes (the device never sends a frame of the right kind and the wrong size) the high-level
+    disconnect returns normally -/
+theorem hl_disconnect_returns (x : Sess) (w : Nat) (h : WF .high x) (hn : NoShort x.st) :
+    (hlDisconnect x w).1 = none :=
+  hlDisconnect_noShort x w h hn
+
+/-- every call of a session is bounded by its own explicit bound, from any state (any earlier faults) -/
+theorem call_bounded (lvl : Level) (x : Sess) (op : Op) (w : Nat) :
+    (step lvl x op w).2.st.time ≤ x.st.time + opBound lvl x.dev.chmax op :=
+  step_time_le lvl x op w
+
+/-- a whole session (any sequence of calls on one handler object, any link script, any stream-thread waits) takes at
+    most the sum of the per-call bounds, and ends in a well-formed state -/
+theorem session_bounded (lvl : Level) (dev : DevDesc) (script : List Resp) (dflt : Resp) (ops : List (Op × Nat)) :
+    (run lvl (Sess.fresh dev script dflt) ops).2.st.time ≤ sessionBound lvl dev.chmax ops ∧
+    WF lvl (run lvl (Sess.fresh dev script dflt) ops).2 := by
+  have h := run_time_le lvl ops (Sess.fresh dev script dflt) (fresh_wf lvl dev script dflt)
+  have h0 : (Sess.fresh dev script dflt).st.time = 0 := rfl
+  have h1 : (Sess.fresh dev script dflt).dev.chmax = dev.chmax := rfl
+  rw [h0, h1, Nat.zero_add] at h
+  exact h
+
+/-- the per-call bounds with the current counters and timeouts (tenths of a second) -/
+theorem call_bounds_eq (chmax : Nat) :
+    opBound .low chmax .connect = 8 + 6 * (18 + chmax * 60) ∧ opBound .high chmax .connect = 8 + 6 * (18 + chmax * 60) ∧
+    opBound .low chmax .streamStart = 10 ∧ opBound .high chmax .streamStart = 30 ∧
+    opBound .low chmax .streamStop = 10 ∧ opBound .high chmax .streamStop = 20 ∧
+    opBound .low chmax .disconnect = 8 ∧ opBound .high chmax .disconnect = 48 := by
+  refine ⟨bound_num chmax, bound_num chmax, ?_, ?_, ?_, ?_, ?_, ?_⟩ <;> (simp only [opBound, hlDisconnectBound]; decide)
+
+/-- a connect call that raises — the first one or a later one on the same handler, at either level — leaves no
+    library thread and no started interface behind.  (The receive-thread / interface part again rests on the generated
+    `Gen.Comm.startCleansUp`; what this adds is the session: nothing of an EARLIER call is left either, because a
+    handler on which connect can raise is not started, hence — invariant `WF` — has no stream thread.) -/
+theorem failed_connect_leaves_nothing (lvl : Level) (x : Sess) (w : Nat) (e : Err) (h : WF lvl x)
+    (hr : (step lvl x .connect w).1 = .raised e) :
+    (step lvl x .connect w).2.threads = 0 ∧ (step lvl x .connect w).2.intf = false := by
+  cases lvl with
+  | low =>
+    unfold step at hr ⊢
+    obtain ⟨_, _, hc⟩ := commConnect_wf_low x h
+    generalize commConnect x = p at hr hc
+    obtain ⟨o, y⟩ := p
+    cases o with
+    | connected a b c => simp [ofOutcome] at hr
+    | raised e' =>
+      obtain ⟨a1, a2, a3⟩ := hc e' rfl
+      simp only at a1 a2 a3 ⊢
+      exact ⟨by simp [Sess.threads, a1, a3], a2⟩
+  | high =>
+    unfold step at hr ⊢
+    obtain ⟨_, _, hc⟩ := hlConnect_ctl x h
+    generalize hlConnect x = p at hr hc
+    obtain ⟨o, y⟩ := p
+    cases o with
+    | connected a b c => simp [ofOutcome] at hr
+    | raised e' =>
+      obtain ⟨a1, a2, a3⟩ := hc e' rfl
+      simp only at a1 a2 a3 ⊢
+      exact ⟨by simp [Sess.threads, a1, a3], a2⟩
+
+/-- a disconnect call that returns — at either level, whatever happened before (failed connects, failed requests,
+    a started stream, a dead link) — leaves no library thread and no started interface behind -/
+theorem disconnect_leaves_nothing (lvl : Level) (x : Sess) (w : Nat) (h : WF lvl x)
+    (hr : (step lvl x .disconnect w).1 = .ok) :
+    (step lvl x .disconnect w).2.threads = 0 ∧ (step lvl x .disconnect w).2.intf = false := by
+  cases lvl with
+  | low =>
+    unfold step
+    obtain ⟨w1, w2, _, w4, _⟩ := h
+    obtain ⟨_, _, _, d3, _, d5, d6⟩ := commDisconnect_ctl x
+    simp only
+    refine ⟨?_, ?_⟩
+    · simp only [Sess.threads]; rw [d5, d3, w4, w1]; cases x.started <;> rfl
+    · rw [d6, w2]; cases x.started <;> rfl
+  | high =>
+    unfold step at hr ⊢
+    rcases (hlDisconnect_ctl x w h).2 with ⟨_, _, h2, h3, _, h5, _⟩ | ⟨h0, _⟩
+    · simp only
+      exact ⟨by simp [Sess.threads, h2, h5], h3⟩
+    · generalize hlDisconnect x w = p at hr h0
+      obtain ⟨o, y⟩ := p
+      simp only at h0
+      subst h0
+      simp [ofErr] at hr
+
+/-- the session model extends the single-connect model: on a fresh handler the connect call of a session IS
+    `connect` (outcome, clock, thread and interface flags, request log), so `connect_bounded … silent_after_cmninfo`
+    above speak about the first call of every session (scripts as written by a test: nothing marked swallowed) -/
+theorem session_first_connect (dev : DevDesc) (script : List Resp) (dflt : Resp) (h : Plain script dflt) :
+    (commConnect (Sess.fresh dev script dflt)).1 = (connect dev script dflt).outcome ∧
+    (commConnect (Sess.fresh dev script dflt)).2.st.time = (connect dev script dflt).time ∧
+    (commConnect (Sess.fresh dev script dflt)).2.recvThr = (connect dev script dflt).recvThreadRunning ∧
+    (commConnect (Sess.fresh dev script dflt)).2.intf = (connect dev script dflt).intfRunning ∧
+    (commConnect (Sess.fresh dev script dflt)).2.log = (connect dev script dflt).sent.map .info :=
+  commConnect_fresh dev script dflt h
+
+example : Plain [.ok, .garbage, .nack] .silent := by simp [Plain, Resp.unswallow]
+
+/-- not vacuous: the high-level handler against a device that falls silent right after the handshake — connect 1.6 s,
+    stream start 3 × 1 s, disconnect 4.8 s (the bound is attained with a full stream-thread poll), nothing left -/
+example :
+    let x := Sess.fresh ⟨2, 3, 0⟩ [.ok, .ok, .ok] .silent
+    let r := run .high x [(.connect, 0), (.streamStart, 0), (.disconnect, 10)]
+    r.1 = [.connected 2 3 0, .ok, .ok] ∧ r.2.st.time = 16 + 30 + 48 ∧ r.2.threads = 0 ∧ r.2.intf = false ∧
+    WF .high x ∧ NoShort x.st := by
+  refine ⟨by decide +kernel, by decide +kernel, by decide +kernel, by decide +kernel, fresh_wf _ _ _ _, ?_⟩
+  simp [NoShort, Sess.fresh, Resp.unswallow]
+
+/-- the exclusion is real: an ACK frame of the wrong size makes the high-level disconnect raise, with both threads
+    still running -/
+example :
+    let x := Sess.fresh ⟨1, 3, 0⟩ [.ok, .ok, .ok, .ok, .ok] .short
+    let r := run .high x [(.connect, 0), (.streamStart, 0), (.disconnect, 10)]
+    r.1 = [.connected 1 3 0, .ok, .raised .structError] ∧ r.2.threads = 2 := by
+  decide +kernel
+
+/-- garbage (a header announcing a 65281-byte frame) kills the link for the rest of the session only: the same
+    handler connects again (F21) -/
+example :
+    let x := Sess.fresh ⟨2, 3, 0⟩ [.ok, .ok, .ok, .garbage] .ok
+    let r := run .low x [(.connect, 0), (.streamStop, 0), (.disconnect, 0), (.connect, 0)]
+    r.1 = [.connected 2 3 0, .noack, .ok, .connected 2 3 0] := by
+  decide +kernel
+
+/-- a failed connect really occurs in a session (hypothesis of `failed_connect_leaves_nothing`) -/
+example : (step .high (Sess.fresh ⟨2, 3, 0⟩ [.ok] .silent) .connect 0).1 = .raised .timeout := by
   decide +kernel
 
 /-- the statements of the receive loop that `recv_body_returns` relies on are present in the current
